@@ -1564,7 +1564,9 @@ class TimePoint:
     def __add__(self, other) -> "TimePoint":
         if isinstance(other, TimePoint):
             if self._truncated and not other._truncated:
-                new = other.to_time_zone(self._time_zone)
+                # N.B. 24:00 is 00:00 on the following day
+                new = other._normalise_end_of_day().to_time_zone(
+                    self._time_zone)
                 new = new.add_truncated(**self.get_truncated_properties())
                 return new.to_time_zone(other._time_zone)
             if other._truncated and not self._truncated:
